@@ -136,7 +136,11 @@ def gen_case(rng, seeds):
         else:
             c["files"]["db_mut.dat"] = t
             c["ops"] = [("loaddb", b"db_mut.dat")]
-    elif r < 0.94 and MULTISIM_SHARE[0]:
+    elif r < 0.90:
+        t, kind = F.numerics_input(rng)
+        c.update(family="numerics", tag=kind)
+        c["ops"] = entry_variant(rng, t, c)
+    elif r < 0.95 and MULTISIM_SHARE[0]:
         t, files, kind = F.multisim_input(rng)
         c.update(family="multisim", tag=kind)
         c["files"].update(files)
@@ -235,6 +239,13 @@ def corpus_cases():
     add("immediate-for-in-user-punch", "SOLUTION\nSELECTED_OUTPUT\nUSER_PUNCH\nFOR i = 1 TO 3\n10 PUNCH 1\nEND\n")   # listed key …clearloops-PBasic::cmdnew
     add("spread-negative-number-row", "SOLUTION_SPREAD\nNumber\tpH\tNa\tCl\tCa\n-4\t6.5\t1\t1\t1\n")     # ad53b668
     add("spread-unclassifiable-token", "SPREAD_SOLUTION\n+ 1;5\n")                                     # 7cbd5ebd
+    rates = "RATES\nDecay\n-start\n10 rate = 1e-3 * M\n20 SAVE rate * TIME\n-end\n"
+    kin = "KINETICS 1\nDecay\n -formula NaCl 1\n -m0 1\n -steps 1000 in 2\n -cvode true\n"
+    add("cvode-exhausted-1", "SOLUTION 1\n" + rates + kin + " -cvode_steps 1\n -bad_step_max 1\nEND\n")              # seeded/C08b: dangling kinetics_cvode_mem
+    add("cvode-exhausted-3", "SOLUTION 1\n" + rates + kin + " -cvode_steps 2\n -bad_step_max 3\nEND\n")
+    add("cvode-exhausted-with-phases", "SOLUTION 1\nEQUILIBRIUM_PHASES 1\n Calcite 0 1\n" + rates + kin + " -cvode_steps 1\n -bad_step_max 2\nEND\n")
+    add("rk-exhausted", "SOLUTION 1\n" + rates.replace("1e-3 * M", "1e6 * M") + "KINETICS 1\nDecay\n -formula NaCl 1\n -m0 1\n -steps 1000 in 2\n -cvode false\n"
+        " -runge_kutta 6\n -bad_step_max 1\n -tol 1e-14\nEND\n")
     add("surface-raw-bad-enum", "SURFACE_RAW\n-sites_units -2147483648\n")
     sit, iso, core = (str(F.DBDIR / n) for n in ("sit.dat", "iso.dat", "core10.dat"))
     C.append(mk_case("corpus", "unread-input-then-reload-no-END-db", [("run", b"SOLUTION 1\n -bogus\nEND\nSOLUTION 2\n Na 1\nEND\n")], sw=[("errstr", 1)],
@@ -423,6 +434,7 @@ def model_strings(ctx, groups):
 def parse_case(rec):
     """split the child's lines into fields"""
     P = dict(L0=None, pre=[], ops={}, RL=None, RLB=None, probe=None, done=False, X=[])
+    P["del"] = None
     cur = None
     for ln in rec["lines"]:
         w = ln.split(" ")
@@ -452,6 +464,8 @@ def parse_case(rec):
             P["probe"] = w[1:]
         elif w[0] == "X":
             P["X"].append(" ".join(w[1:]))
+        elif w[0] == "DEL":
+            P["del"] = w[1]
         elif w[0] == "DONE":
             P["done"] = True
     return P
@@ -500,6 +514,8 @@ def analyse(ctx, exe, c, rec):
             phase = "op%d(GetComponentCount after %s)" % (last, c["ops"][last][0])
         elif P["RL"] is None:
             phase = "reload"
+        elif P["del"] == "begin":
+            phase = "destruction of the instances"
         elif P["RLB"] is None:
             phase = "op-load-on-new-instance"            # the comparison instance died loading the reload database: nothing to do with the history
         else:
@@ -757,7 +773,7 @@ def report(ctx, exe, c, issue, timeout, seen, shrink=True, withheld=None):
         withheld[fk] = dict(cls=cls, text=text[:600], case=case_to_json(c))           # never silent: counted and printed at the end
         return
     small = c
-    if shrink and not known:
+    if shrink and not known and not key.startswith(("hang:", "base-")):       # nothing to shrink: the judged input is not the cause / each try costs a timeout
         try:
             small = shrink_case(ctx, exe, c, key, timeout)
             a = analyse(ctx, exe, small, run_one(exe, small, timeout))
